@@ -25,20 +25,24 @@ from .. import common, impl
 ID = "C18"
 LEVEL = "exploration"
 RULE = (
-    "files: every ordered forest over {config(6 flavours: help with blank/deeper/keyword-led lines, continuation in the "
-    "middle, 3-line continuation last, # comment lines + trailing # comment, plain, string with '#' and explicit prompt), "
-    "menuconfig, comment, source of Kconfig.<x>, macro (first child only), menu, if, choice(named/unnamed)} with <= N "
-    "entries and nesting depth <= 3 (quick: N<=2 in every flavour rotation, plus every container chain of depth 2 and 3 "
-    "around one leaf; thorough: additionally all forests with N=3 and all depth<=3 forests with N=4 whose root is a single "
-    "container), each rendered under `mainmenu` and as a sourced Kconfig.body; every Kconfig.* file of a program is a "
-    "target. manglings per target: ALL single sites {indent +1..+4, -1..-4, 0, one tab per 4-space unit, a leading tab, 1 "
-    "and 2 trailing blanks, trailing tab, tab inside the first quoted string} x all lines, ALL pairs of sites (same line: "
-    "different classes; different lines: line distance <= D, quick D=2 / thorough D=6 for N<=3, D=3 for N=4), 4 global "
-    "manglings (indents doubled / halved / zeroed / as tabs); manglings yielding identical bytes are merged. A mangled file "
-    "which Kconfig(parser_version=1) rejects is outside the statement (skipped). rename files: all sequences of <= 2 "
-    "(thorough 3) line kinds {comment, blank, plain, inverted, with trailing comment, lowercase old name, wide separator} "
-    "with the same site alphabet plus tab-as-separator; a mangled rename file which the rename-file loader rejects is "
-    "skipped. distinct outcome = (program, target, mangled reading same-as-canonical?, number of passes, fixed-point bytes)."
+    "FILES: every ordered forest over {config (6 flavours by rotation: help text with blank / deeper / keyword-led lines; "
+    "`\\` continuation in the middle; 3-line continuation last; `#` comment lines + trailing `#` comment; plain; string with "
+    "'#' and explicit prompt), menuconfig, comment, [ro]source of Kconfig.<x>, macro (first line of a block only), menu, if, "
+    "choice (named; unnamed)} with N entries and nesting depth <= 3, rendered compliantly under `mainmenu` (entries at 4 "
+    "blanks) and as a sourced Kconfig.body (entries at 0 blanks); every Kconfig* file of a program is a target. "
+    "quick: N=1 in all 6 flavour rotations; N=2 (one rotation/position per forest); all container chains of depth 3 around an "
+    "option and of depth 2 around a choice; each spelling of `source` after a help text; 2 dedicated programs ('#' in a quoted "
+    "condition, unnamed choice in an `if`). thorough: N<=2 in all rotations and both positions, all chains of depth 2 and 3, "
+    "all forests with N=3, and the single-rooted N=4 forests of depth >= 2 (a quarter of them, chosen by a stable hash). "
+    "MANGLINGS per target: ALL single sites {indent +1..+4, -1..-4, 0, one tab per 4-blank unit, a leading tab, 1 and 2 "
+    "trailing blanks, trailing tab, tab inside the first quoted string} x all lines; ALL pairs of sites (same line: different "
+    "classes; different lines: at most D non-blank lines apart -- quick D=1; thorough D=3 for N=1, D=2 for N=2 and chains, "
+    "D=1 for N>=3); the 4 global manglings (all indents doubled / halved / zeroed / as tabs). A mangled file that "
+    "Kconfig(parser_version=1) rejects is outside the statement (skipped). RENAME FILES: all sequences of <= 2 (thorough 3) "
+    "line kinds {comment, blank, plain, inverted, trailing comment, lowercase old name, wide separator} with the same site "
+    "alphabet plus tab-as-separator, all singles and all pairs; skipped when load_rename_files rejects the mangled file. "
+    "distinct outcome = (program, target, reading of the mangled file same as canonical?, passes needed, fixed-point bytes, "
+    "failure classes)."
 )
 ASSUMPTIONS = [
     "validate_file() is a function of (file name, file bytes): passes are memoised per worker on the bytes; every "
@@ -399,7 +403,7 @@ def programs(tier: str) -> List[Dict[str, Any]]:
             for pos in ("main", "sub") if thorough else (hpos(f),):
                 emit(f, rot, pos, 2 if thorough else 1, "n2")
     for f in chains():
-        if not thorough and leaf_of(f) in (("mcfg", "cmt", "src") if depth_of(f) == 3 else ("cmt", "src")):
+        if not thorough and (depth_of(f), leaf_of(f)) not in ((3, "cfg"), (2, "choice")):
             continue
         for pos in ("main", "sub") if thorough else (hpos(f),):
             emit(f, hrot(f), pos, 2 if thorough else 1, "chain")
@@ -414,7 +418,7 @@ def programs(tier: str) -> List[Dict[str, Any]]:
         for f in forests(3, 3):
             emit(f, hrot(f), hpos(f), 1, "n3")
         for f in forests(4, 3):
-            if len(f) == 1 and depth_of(f) >= 2 and common.h64(repr(f) + "s") % 2 == 0:
+            if len(f) == 1 and depth_of(f) >= 2 and common.h64(repr(f) + "s") % 4 == 0:
                 emit(f, hrot(f), hpos(f), 1, "n4")
     return out
 
@@ -689,7 +693,7 @@ _RE_QUOTED = re.compile(r"'[^']*'|\"[^\"]*\"")
 def msg_class(msg: str, path: str) -> str:
     """kconfcheck's complaint without path / line number / concrete names"""
     m = msg.replace(path + ".new", "<file>").replace(path, "<file>")
-    m = re.sub(r"^<file>:\d+: ", "", m)
+    m = re.sub(r"^<file>:(\d+|EOF): ", "", m)
     m = m.split("\n")[0]
     m = _RE_QUOTED.sub("'..'", m)
     m = re.sub(r"\bAPP_\w+|\bCONFIG_\w+", "NAME", m)
